@@ -199,99 +199,209 @@ func refDisabled(f *vImageFile, rules []vRule, opt bufconfig.FileOption) bool {
 }
 
 // ---------- snapshot of everything in a file descriptor except one governed option ----------
+//
+// The frame condition of C18 is about VALUES ("everything else in every descriptor is unchanged"), not about object
+// identity: a modifier may legitimately re-allocate a string pointer or clone a message as long as the contents are
+// the same. The snapshot therefore records values (presence + value of every optional scalar, the flattened
+// name/number/type/type-name/jstype of every field of every message, the dependency list, the number and paths of
+// the source locations), and the comparison is field equality.
+
+type vFP struct {
+	s string
+	n int32
+}
+
+func vFPStr(tag string, p *string) vFP {
+	if p == nil {
+		return vFP{s: tag + ":<nil>"}
+	}
+	return vFP{s: tag + "=" + *p, n: 1}
+}
+
+func vFPFields(out []vFP, tag string, fields []*descriptorpb.FieldDescriptorProto) []vFP {
+	out = append(out, vFP{s: tag + "#fields", n: int32(len(fields))})
+	for _, f := range fields {
+		out = append(out, vFPStr("fname", f.Name), vFPStr("ftypename", f.TypeName), vFPStr("extendee", f.Extendee))
+		out = append(out, vFP{s: "fnumber", n: f.GetNumber()}, vFP{s: "ftype", n: int32(f.GetType())}, vFP{s: "flabel", n: int32(f.GetLabel())})
+		if f.Type == nil {
+			out = append(out, vFP{s: "ftype:<nil>"})
+		}
+		if o := f.Options; o != nil {
+			// field options other than jstype (jstype is the governed one for fields)
+			out = append(out, vFP{s: "fopts", n: 1})
+			out = append(out, vFP{s: "ctype", n: int32(o.GetCtype())}, vFP{s: "packed", n: vB(o.Packed)}, vFP{s: "deprecated", n: vB(o.Deprecated)}, vFP{s: "lazy", n: vB(o.Lazy)})
+		}
+	}
+	return out
+}
+
+func vB(p *bool) int32 {
+	if p == nil {
+		return -1
+	}
+	if *p {
+		return 1
+	}
+	return 0
+}
+
+func vFPMessages(out []vFP, msgs []*descriptorpb.DescriptorProto) []vFP {
+	out = append(out, vFP{s: "#msgs", n: int32(len(msgs))})
+	for _, m := range msgs {
+		out = append(out, vFPStr("mname", m.Name))
+		out = vFPFields(out, "msg", m.Field)
+		out = vFPFields(out, "msgext", m.Extension)
+		out = vFPMessages(out, m.NestedType)
+	}
+	return out
+}
+
+// vFingerprint flattens every non-option part of a file descriptor into a list of values.
+func vFingerprint(d *descriptorpb.FileDescriptorProto) []vFP {
+	out := []vFP{vFPStr("name", d.Name), vFPStr("package", d.Package), vFPStr("syntax", d.Syntax)}
+	out = append(out, vFP{s: "#deps", n: int32(len(d.Dependency))})
+	for _, dep := range d.Dependency {
+		out = append(out, vFP{s: "dep=" + dep})
+	}
+	out = vFPMessages(out, d.MessageType)
+	out = vFPFields(out, "ext", d.Extension)
+	out = append(out, vFP{s: "#enums", n: int32(len(d.EnumType))}, vFP{s: "#services", n: int32(len(d.Service))})
+	return out
+}
+
+type vOptVal struct {
+	set bool
+	s   string
+	n   int32
+}
+
+func vOS(p *string) vOptVal {
+	if p == nil {
+		return vOptVal{}
+	}
+	return vOptVal{set: true, s: *p}
+}
+
+func vOB(p *bool) vOptVal {
+	if p == nil {
+		return vOptVal{}
+	}
+	return vOptVal{set: true, n: vB(p)}
+}
+
+// vOptionValues: presence + value of every file option, keyed by the managed FileOption (ungoverned ones by name).
+func vOptionValues(o *descriptorpb.FileOptions) (map[bufconfig.FileOption]vOptVal, []vOptVal) {
+	m := map[bufconfig.FileOption]vOptVal{}
+	if o == nil {
+		return m, nil
+	}
+	m[bufconfig.FileOptionJavaPackage] = vOS(o.JavaPackage)
+	m[bufconfig.FileOptionJavaOuterClassname] = vOS(o.JavaOuterClassname)
+	m[bufconfig.FileOptionJavaMultipleFiles] = vOB(o.JavaMultipleFiles)
+	m[bufconfig.FileOptionJavaStringCheckUtf8] = vOB(o.JavaStringCheckUtf8)
+	if o.OptimizeFor != nil {
+		m[bufconfig.FileOptionOptimizeFor] = vOptVal{set: true, n: int32(*o.OptimizeFor)}
+	} else {
+		m[bufconfig.FileOptionOptimizeFor] = vOptVal{}
+	}
+	m[bufconfig.FileOptionGoPackage] = vOS(o.GoPackage)
+	m[bufconfig.FileOptionCcEnableArenas] = vOB(o.CcEnableArenas)
+	m[bufconfig.FileOptionObjcClassPrefix] = vOS(o.ObjcClassPrefix)
+	m[bufconfig.FileOptionCsharpNamespace] = vOS(o.CsharpNamespace)
+	m[bufconfig.FileOptionPhpNamespace] = vOS(o.PhpNamespace)
+	m[bufconfig.FileOptionPhpMetadataNamespace] = vOS(o.PhpMetadataNamespace)
+	m[bufconfig.FileOptionRubyPackage] = vOS(o.RubyPackage)
+	ungoverned := []vOptVal{vOB(o.JavaGenerateEqualsAndHash), vOB(o.CcGenericServices), vOB(o.JavaGenericServices), vOB(o.PyGenericServices),
+		vOB(o.Deprecated), vOS(o.SwiftPrefix), vOS(o.PhpClassPrefix), {set: o.Features != nil}, {n: int32(len(o.UninterpretedOption))}}
+	return m, ungoverned
+}
 
 type vSnap struct {
-	name, pkg, syntax *string
-	deps              []string
-	msgs              []*descriptorpb.DescriptorProto
-	enums             []*descriptorpb.EnumDescriptorProto
-	svcs              []*descriptorpb.ServiceDescriptorProto
-	exts              []*descriptorpb.FieldDescriptorProto
-	sci               *descriptorpb.SourceCodeInfo
-	locs              []*descriptorpb.SourceCodeInfo_Location
-	options           *descriptorpb.FileOptions
-	opt               descriptorpb.FileOptions // shallow copy of the option pointers (nil options => zero)
+	fp         []vFP
+	hasOptions bool
+	hasSCI     bool
+	locPaths   [][]int32
+	opts       map[bufconfig.FileOption]vOptVal
+	ungoverned []vOptVal
 }
 
 func vTakeSnap(d *descriptorpb.FileDescriptorProto) *vSnap {
-	s := &vSnap{name: d.Name, pkg: d.Package, syntax: d.Syntax, deps: d.Dependency, msgs: d.MessageType,
-		enums: d.EnumType, svcs: d.Service, exts: d.Extension, sci: d.SourceCodeInfo, options: d.Options}
+	s := &vSnap{fp: vFingerprint(d), hasOptions: d.Options != nil, hasSCI: d.SourceCodeInfo != nil}
 	if d.SourceCodeInfo != nil {
-		s.locs = d.SourceCodeInfo.Location
+		for _, l := range d.SourceCodeInfo.Location {
+			s.locPaths = append(s.locPaths, append([]int32(nil), l.Path...))
+		}
 	}
-	if o := d.Options; o != nil {
-		s.opt.JavaPackage, s.opt.JavaOuterClassname, s.opt.JavaMultipleFiles = o.JavaPackage, o.JavaOuterClassname, o.JavaMultipleFiles
-		s.opt.JavaGenerateEqualsAndHash, s.opt.JavaStringCheckUtf8, s.opt.OptimizeFor = o.JavaGenerateEqualsAndHash, o.JavaStringCheckUtf8, o.OptimizeFor
-		s.opt.GoPackage, s.opt.CcGenericServices, s.opt.JavaGenericServices, s.opt.PyGenericServices = o.GoPackage, o.CcGenericServices, o.JavaGenericServices, o.PyGenericServices
-		s.opt.Deprecated, s.opt.CcEnableArenas, s.opt.ObjcClassPrefix, s.opt.CsharpNamespace = o.Deprecated, o.CcEnableArenas, o.ObjcClassPrefix, o.CsharpNamespace
-		s.opt.SwiftPrefix, s.opt.PhpClassPrefix, s.opt.PhpNamespace, s.opt.PhpMetadataNamespace = o.SwiftPrefix, o.PhpClassPrefix, o.PhpNamespace, o.PhpMetadataNamespace
-		s.opt.RubyPackage, s.opt.Features, s.opt.UninterpretedOption = o.RubyPackage, o.Features, o.UninterpretedOption
-	}
+	s.opts, s.ungoverned = vOptionValues(d.Options)
 	return s
 }
 
-func vSameMsgs(a, b []*descriptorpb.DescriptorProto) bool {
-	if len(a) != len(b) {
+// vFrameOK: every non-option part of the descriptor has the same values as in the snapshot (source info is compared
+// by the lemmas that sweep; the per-option modifiers never touch it: presence must be the same).
+func vFrameOK(s *vSnap, d *descriptorpb.FileDescriptorProto) bool {
+	now := vFingerprint(d)
+	if len(now) != len(s.fp) || (d.SourceCodeInfo != nil) != s.hasSCI {
 		return false
 	}
-	for i := range a {
-		if a[i] != b[i] {
+	for i := range now {
+		if now[i] != s.fp[i] {
 			return false
 		}
 	}
 	return true
 }
 
-// vFrameOK: everything but the file options is pointer/field-equal to the snapshot.
-func vFrameOK(s *vSnap, d *descriptorpb.FileDescriptorProto) bool {
-	if d.Name != s.name || d.Package != s.pkg || d.Syntax != s.syntax || d.SourceCodeInfo != s.sci {
-		return false
-	}
-	if len(d.Dependency) != len(s.deps) || len(d.EnumType) != len(s.enums) || len(d.Service) != len(s.svcs) || len(d.Extension) != len(s.exts) {
-		return false
-	}
-	for i := range s.deps {
-		if d.Dependency[i] != s.deps[i] {
-			return false
-		}
-	}
-	for i := range s.exts {
-		if d.Extension[i] != s.exts[i] {
-			return false
-		}
-	}
-	return vSameMsgs(s.msgs, d.MessageType)
+// vOptionsPresenceKept: a file without an options message still has none (message presence is observable).
+func vOptionsPresenceKept(s *vSnap, d *descriptorpb.FileDescriptorProto) bool {
+	return (d.Options != nil) == s.hasOptions
 }
 
-// vOtherOptionsOK: every file option other than `governed` holds the very pointer it held before (nil before => nil).
+// vGovernedKept: the governed option has the same presence and value as before.
+func vGovernedKept(s *vSnap, d *descriptorpb.FileDescriptorProto, governed bufconfig.FileOption) bool {
+	now, _ := vOptionValues(d.Options)
+	return now[governed] == s.opts[governed]
+}
+
+// vOtherOptionsOK: every file option other than `governed` has the same presence and value as before.
 func vOtherOptionsOK(s *vSnap, d *descriptorpb.FileDescriptorProto, governed bufconfig.FileOption) bool {
-	o := d.Options
-	if o == nil {
-		return s.options == nil
-	}
-	b := &s.opt
-	ok := true
-	chk := func(opt bufconfig.FileOption, same bool) {
-		if opt != governed && !same {
-			ok = false
+	now, ungoverned := vOptionValues(d.Options)
+	for opt, before := range s.opts {
+		if opt != governed && now[opt] != before {
+			return false
 		}
 	}
-	chk(bufconfig.FileOptionJavaPackage, o.JavaPackage == b.JavaPackage)
-	chk(bufconfig.FileOptionJavaOuterClassname, o.JavaOuterClassname == b.JavaOuterClassname)
-	chk(bufconfig.FileOptionJavaMultipleFiles, o.JavaMultipleFiles == b.JavaMultipleFiles)
-	chk(bufconfig.FileOptionJavaStringCheckUtf8, o.JavaStringCheckUtf8 == b.JavaStringCheckUtf8)
-	chk(bufconfig.FileOptionOptimizeFor, o.OptimizeFor == b.OptimizeFor)
-	chk(bufconfig.FileOptionGoPackage, o.GoPackage == b.GoPackage)
-	chk(bufconfig.FileOptionCcEnableArenas, o.CcEnableArenas == b.CcEnableArenas)
-	chk(bufconfig.FileOptionObjcClassPrefix, o.ObjcClassPrefix == b.ObjcClassPrefix)
-	chk(bufconfig.FileOptionCsharpNamespace, o.CsharpNamespace == b.CsharpNamespace)
-	chk(bufconfig.FileOptionPhpNamespace, o.PhpNamespace == b.PhpNamespace)
-	chk(bufconfig.FileOptionPhpMetadataNamespace, o.PhpMetadataNamespace == b.PhpMetadataNamespace)
-	chk(bufconfig.FileOptionRubyPackage, o.RubyPackage == b.RubyPackage)
-	// options managed mode never governs
-	chk(bufconfig.FileOptionUnspecified-1, o.JavaGenerateEqualsAndHash == b.JavaGenerateEqualsAndHash && o.CcGenericServices == b.CcGenericServices &&
-		o.JavaGenericServices == b.JavaGenericServices && o.PyGenericServices == b.PyGenericServices && o.Deprecated == b.Deprecated &&
-		o.SwiftPrefix == b.SwiftPrefix && o.PhpClassPrefix == b.PhpClassPrefix && o.Features == b.Features &&
-		len(o.UninterpretedOption) == len(b.UninterpretedOption))
-	return ok
+	if d.Options == nil || !s.hasOptions {
+		// no options message before: nothing but the governed option may be set now
+		for opt, v := range now {
+			if opt != governed && v.set {
+				return false
+			}
+		}
+		for _, v := range ungoverned {
+			if v.set || v.n != 0 {
+				return false
+			}
+		}
+		return true
+	}
+	for i := range ungoverned {
+		if ungoverned[i] != s.ungoverned[i] {
+			return false
+		}
+	}
+	return true
+}
+
+// vMarksOnly: every recorded mark is for this file and this path, and there is at least one (Mark is a set insert:
+// marking twice is harmless).
+func vMarksOnly(sw *vSweeper, filePath string, path []int32) bool {
+	if len(sw.paths) == 0 {
+		return false
+	}
+	for i := range sw.paths {
+		if !vPathIs(sw.paths[i], path) || sw.files[i].Path() != filePath {
+			return false
+		}
+	}
+	return true
 }
